@@ -75,6 +75,14 @@ def value_set(facts, body, e, depth=0):
         return out
     if k == "cast" and e[1] in ("IntToInt",):
         return value_set(facts, body, e[2], depth + 1)
+    if k == "field" and e[2] == 0 and e[1][0] == "binop" and e[1][1] in ("AddWithOverflow", "SubWithOverflow", "MulWithOverflow"):
+        return value_set(facts, body, e[1], depth + 1)       # the value component of a checked operation
+    if k == "binop" and e[1] in ("Add", "AddWithOverflow", "AddUnchecked", "Sub", "SubWithOverflow", "SubUnchecked", "Mul", "MulWithOverflow"):
+        xs, ys = value_set(facts, body, e[2], depth + 1), value_set(facts, body, e[3], depth + 1)
+        if xs is None or ys is None or len(xs) * len(ys) > 64:
+            return None
+        f = (lambda x, y: x + y) if e[1].startswith("Add") else (lambda x, y: x - y) if e[1].startswith("Sub") else (lambda x, y: x * y)
+        return {f(x, y) for x in xs for y in ys}
     if k == "field" and isinstance(e[2], int):
         # a column of a constant table walked by an iterator: `for (prefix, radix) in TABLE.iter()` — the values the
         # column can take are the constants in that position of the table's rows
@@ -613,10 +621,35 @@ def _same_struct_field(body, e, adt, fi=None):
     return False
 
 
+INT_RANGE = {"u8": (0, 2**8 - 1), "u16": (0, 2**16 - 1), "u32": (0, 2**32 - 1), "u64": (0, 2**64 - 1), "usize": (0, 2**64 - 1), "u128": (0, 2**128 - 1),
+             "i8": (-2**7, 2**7 - 1), "i16": (-2**15, 2**15 - 1), "i32": (-2**31, 2**31 - 1), "i64": (-2**63, 2**63 - 1), "isize": (-2**63, 2**63 - 1), "i128": (-2**127, 2**127 - 1)}
+
+
+def j_value_range(facts, b, bi):
+    """A checked `x op y` cannot overflow when the values both operands can take are known constants (written in
+    place, or parameters of a private function over all its call sites, through captures, phis and sums) and every
+    combination of them stays inside the range of the type."""
+    for s in b.blocks[bi]["stmts"]:
+        if s["k"] == "Assign" and s["rv"]["k"] == "BinaryOp" and s["rv"]["op"] in ("AddWithOverflow", "SubWithOverflow", "MulWithOverflow") and (s["rv"].get("opty") or "") in INT_RANGE:
+            rv = s["rv"]
+            xs, ys = value_set(facts, b, b.trace(rv["a"])), value_set(facts, b, b.trace(rv["b"]))
+            if not xs or not ys or len(xs) * len(ys) > 64:
+                return None
+            f = (lambda x, y: x + y) if rv["op"].startswith("Add") else (lambda x, y: x - y) if rv["op"].startswith("Sub") else (lambda x, y: x * y)
+            lo, hi = INT_RANGE[rv["opty"]]
+            if all(lo <= f(x, y) <= hi for x in xs for y in ys):
+                return "J4' value-set: operands ∈ %s and %s on every path (constants traced through parameters to all call sites): %s stays inside %s" % (sorted(xs), sorted(ys), rv["op"].replace("WithOverflow", "").lower(), rv["opty"])
+            return None
+    return None
+
+
 def j_assert(facts, b, bi, t):
     msg = t["msg"]
     if msg == "Overflow":
         j = j_counter(b, bi)
+        if j:
+            return j
+        j = j_value_range(facts, b, bi)
         if j:
             return j
         add = _overflow_add(b, bi)
@@ -915,12 +948,72 @@ def view_length(facts, arity, b, op):
     return None
 
 
-def j_index(facts, roles, arity, b, bi, t, vecop=None, idxop=None):
-    view = view_length(facts, arity, b, vecop if vecop is not None else t["args"][0])
-    idx = strip_refs(b.xtrace(idxop if idxop is not None else t["args"][1]))
-    if idx[0] != "const" or not isinstance(const_value(idx[1]), int):
+def _subst_args(e, args):
+    """e with every parameter ('arg', i) replaced by args[i-1] (expressions of the caller)"""
+    if isinstance(e, tuple):
+        if len(e) == 2 and e[0] == "arg" and isinstance(e[1], int):
+            return args[e[1] - 1] if 1 <= e[1] <= len(args) else e
+        return tuple(_subst_args(x, args) for x in e)
+    if isinstance(e, list):
+        return [_subst_args(x, args) for x in e]
+    return e
+
+
+def _call_sites(facts, b):
+    """Call sites [(caller body, block, terminator)] of a private function that is never handed on as a value, else None."""
+    it = facts.items.get(b.key, {})
+    if b.kind != "fn" or it.get("reachable") or it.get("exported"):
         return None
-    c = const_value(idx[1])
+    out = []
+    for cb in facts.fns():
+        for cbi, ct in cb.calls():
+            c = callee_of(ct)
+            if c and c.get("key") == b.key:
+                out.append((cb, cbi, ct))
+            elif any(fa.get("key") == b.key for fa in ((ct.get("callee") or {}).get("fnargs") or [])):
+                return None
+    return out or None
+
+
+def j_index(facts, roles, arity, b, bi, t, vecop=None, idxop=None):
+    """The index is read as the set of values it can take (a constant; sums of constants), the indexed value as its
+    length interval refined by the length tests that dominate the site.  When the site is in a private helper whose
+    index and/or list are its parameters, the same statement is made *per call site* of the helper — the value of the
+    index handed in there against the length interval that holds there (`holds_at(items, 1)` under `len != 2`)."""
+    vecop = vecop if vecop is not None else t["args"][0]
+    idx = strip_refs(b.xtrace(idxop if idxop is not None else t["args"][1]))
+    return _j_index_at(facts, arity, b, bi, vecop, idx, 0)
+
+
+def _j_index_at(facts, arity, b, bi, vecop, idx, depth):
+    vals = value_set(facts, b, idx) if not expr_mentions(idx, lambda x: x[0] == "arg") else None
+    if vals:
+        j = _j_index_const(facts, arity, b, bi, vecop, max(vals)) if min(vals) >= 0 else None
+        if j:
+            return j
+    # per call site of a private helper
+    if depth >= 3:
+        return None
+    v = strip_refs(b.trace(vecop))
+    sites = _call_sites(facts, b)
+    if sites is None or not (expr_mentions(idx, lambda x: x[0] == "arg") or v[0] == "arg"):
+        return None
+    if v[0] != "arg":
+        return None
+    whys = []
+    for (cb, cbi, ct) in sites:
+        args = [cb.trace(a) for a in ct["args"]]
+        if v[1] > len(ct["args"]):
+            return None
+        j = _j_index_at(facts, arity, cb, cbi, ct["args"][v[1] - 1], strip_refs(_subst_args(idx, args)), depth + 1)
+        if j is None:
+            return None
+        whys.append("%s: %s" % (cb.key.split("::", 1)[1], j))
+    return "J3 per call site of this helper (index and list are its parameters) — " + " | ".join(sorted(set(whys)))[:600]
+
+
+def _j_index_const(facts, arity, b, bi, vecop, c):
+    view = view_length(facts, arity, b, vecop)
     if view is None:
         return None
     lo, hi, what, is_len = view
